@@ -62,6 +62,32 @@ fn hist_opt(name: &str) -> OptSet {
 
 pub fn replay(r: &serde_json::Value) -> i32 {
 	surrealkv::verif::set_forced_height(1);
+	if r["engine"] == "c11-sweep" {
+		let n = r["n"].as_u64().unwrap_or(1) as usize;
+		let idx = r["index"].as_bool().unwrap_or(false);
+		return match (size_sweep_case(n, idx), size_sweep_case(n, idx)) {
+			(Ok(a), Ok(b)) => {
+				if a.as_ref().map(|x| &x.0) != b.as_ref().map(|x| &x.0) {
+					eprintln!("machinery: replay not deterministic");
+					return 2;
+				}
+				match a {
+					Some((c, t)) => {
+						println!("VIOLATION property=C11 replay=<this file>\n  class={c} {t}");
+						1
+					}
+					None => {
+						println!("replay passed: no violation");
+						0
+					}
+				}
+			}
+			(Err(e), _) | (_, Err(e)) => {
+				eprintln!("machinery: {e}");
+				2
+			}
+		};
+	}
 	let hops = crate::props::c10::hops_from_json(&r["hops"]);
 	let name = r["backend"].as_str().unwrap_or("index-vlog64").to_string();
 	println!("replaying C11 history [{name}] {}", crate::props::c10::hops_str(&hops));
@@ -95,6 +121,75 @@ pub fn replay(r: &serde_json::Value) -> i32 {
 			2
 		}
 	}
+}
+
+/// One case of the size sweep (see `check`).
+fn size_sweep_case(n: usize, index: bool) -> Result<Option<(String, String)>, String> {
+	use crate::model::Write;
+	use crate::world::World;
+	use surrealkv::{Durability, LSMIterator, Mode};
+	// short retention: the overwritten versions become stale, so the clean-up has work to do
+	let opt = OptSet::base(if index { "sweep-versioned-index-vlog" } else { "sweep-vlog" }).levels(2).cache(0);
+	let mut opt = if index { opt.versioned(1, true).with_vlog(0, 4096) } else { opt.with_vlog(8, 4096) };
+	opt.memtable = 8 << 20;
+	let mut w = World::new(opt, &[])?;
+	let val = |round: usize, i: usize| format!("round{round}-value-of-key-{i:05}-{}", "z".repeat(20)).into_bytes();
+	for round in 0..2 {
+		let ws: Vec<Write> = (0..n).map(|i| Write::set(format!("k{i:05}").as_bytes(), &val(round, i))).collect();
+		for chunk in ws.chunks(200) {
+			w.commit(chunk, Durability::Eventual)?.map_err(|e| e)?;
+		}
+		w.clock.advance(1_000_000);
+		w.physical(Phys::FlushAll)?;
+	}
+	w.physical(Phys::Compact)?;
+	// right after the clean-up pass that removed the files
+	if let Some(m) = w.check_index_pointers() {
+		return Ok(Some(("sweep:dangling-index-pointer".into(), format!("after the first compaction: {}: {}", m.query, m.got))));
+	}
+	w.physical(Phys::Compact)?;
+	let _g = w.rt.as_ref().unwrap().enter();
+	let txn = w.tree().begin_with_mode(Mode::ReadOnly).map_err(|e| format!("{e}"))?;
+	for i in 0..n {
+		let k = format!("k{i:05}");
+		match txn.get(k.as_bytes()) {
+			Ok(Some(v)) if v == val(1, i) => {}
+			Ok(o) => return Ok(Some(("sweep:wrong-value".into(), format!("get({k}) = {:?}", o.map(|v| String::from_utf8_lossy(&v).to_string()))))),
+			Err(e) => return Ok(Some(("sweep:value-unreadable".into(), format!("get({k}): {e}")))),
+		}
+	}
+	drop(txn);
+	drop(_g);
+	if let Some(m) = w.check_index_pointers() {
+		return Ok(Some(("sweep:dangling-index-pointer".into(), format!("{}: {}", m.query, m.got))));
+	}
+	let _g = w.rt.as_ref().unwrap().enter();
+	let txn = w.tree().begin_with_mode(Mode::ReadOnly).map_err(|e| format!("{e}"))?;
+	if index {
+		// every version still listed by history must resolve
+		let o = surrealkv::HistoryOptions::new().with_tombstones(true);
+		let mut it = txn.history_with_options(crate::world::LO, crate::world::HI, &o).map_err(|e| format!("{e}"))?;
+		let mut ok = it.seek_first().map_err(|e| format!("history seek_first: {e}"))?;
+		let mut listed = 0usize;
+		while ok {
+			listed += 1;
+			if let Err(e) = it.value() {
+				return Ok(Some(("sweep:history-version-unreadable".into(), format!("history entry {} ({}@{}): {e}", listed, String::from_utf8_lossy(it.key().user_key()), it.key().timestamp()))));
+			}
+			ok = match it.next() {
+				Ok(b) => b,
+				Err(e) => return Ok(Some(("sweep:history-version-unreadable".into(), format!("history next after {listed} entries: {e}")))),
+			};
+		}
+		if std::env::var("VERIF_DEBUG").is_ok() {
+			let files: Vec<String> = std::fs::read_dir(w.dir.join("vlog")).map(|d| d.flatten().map(|e| e.file_name().to_string_lossy().to_string()).collect()).unwrap_or_default();
+			eprintln!("sweep n={n}: history listed {listed}, vlog files {}: {:?}, removed counter {}", files.len(), files.iter().take(4).collect::<Vec<_>>(), surrealkv::verif::VLOG_FILES_REMOVED.load(std::sync::atomic::Ordering::Relaxed));
+		}
+		if listed < n {
+			return Ok(Some(("sweep:history-lost-current-versions".into(), format!("history lists {listed} entries for {n} keys"))));
+		}
+	}
+	Ok(None)
 }
 
 fn classify(f: &WorldFailure, _ops: &[Op], _opt: &OptSet) -> String {
@@ -195,6 +290,36 @@ pub fn check(tier: Tier) -> i32 {
 		eprintln!("C11: vacuous exploration (pointer reads {reads}, files removed {removed})");
 		return 2;
 	}
+	// --- size sweep: N keys written, flushed, all overwritten, flushed, compacted (clean-up of the
+	// value log and of the version index); every current value and every retained version must
+	// still be readable. N runs over a list that reaches past any small fixed batch limit ---
+	let mut sweep_runs = 0u64;
+	{
+		use rayon::prelude::*;
+		let ns: Vec<usize> = if tier == Tier::Quick { vec![1, 2, 3, 17, 100, 520, 1030] } else { vec![1, 2, 3, 17, 100, 257, 520, 1030, 2100, 4200] };
+		let cases: Vec<(usize, bool)> = ns.iter().flat_map(|n| [(*n, false), (*n, true)]).collect();
+		let res: Vec<((usize, bool), Result<Option<(String, String)>, String>)> = cases.par_iter().map(|c| (*c, crate::util::guarded(|| size_sweep_case(c.0, c.1)).unwrap_or_else(|p| Ok(Some((format!("panic:{}", crate::props::norm_msg(&p)), p)))))).collect();
+		for ((n, idx), r) in res {
+			sweep_runs += 1;
+			match r {
+				Err(e) => {
+					eprintln!("machinery: size sweep n={n}: {e}");
+					return 2;
+				}
+				Ok(Some((class, text))) => {
+					*stats.per_class.entry(class.clone()).or_default() += 1;
+					report.violations.push(crate::util::Violation {
+						class,
+						what: format!("[size sweep: {n} keys, version index {}] {text}", if idx { "on" } else { "off" }),
+						replay: json!({"engine": "c11-sweep", "n": n, "index": idx}),
+					});
+				}
+				Ok(None) => {}
+			}
+		}
+		completed.push(format!("size sweep: N in {ns:?} x version index off/on: write N keys, flush, overwrite all, flush, compact, read everything (current values, every version at its timestamp, full history)"));
+	}
+	report.set("size_sweep_runs", json!(sweep_runs));
 	// --- crash part: power-loss / process-crash images of value-log workloads ---
 	let code = crate::props::crash::run_into(&mut report, "C11", tier, if tier == Tier::Quick { 14.0 } else { 600.0 });
 	if code != 0 {
